@@ -38,22 +38,30 @@ impl std::str::FromStr for Prof {
         }
     }
 }
+/// which profile the loader last asked for its name (0 = none yet, 1 = dev, 2 = prd)
+static mut LAST_PROFILE_ASKED: u8 = 0;
 impl AsRef<str> for Prof {
     fn as_ref(&self) -> &str {
         match self {
-            Prof::Dev => "dev",
-            Prof::Prod => "prd",
+            Prof::Dev => {
+                unsafe { LAST_PROFILE_ASKED = 1 };
+                "dev"
+            }
+            Prof::Prod => {
+                unsafe { LAST_PROFILE_ASKED = 2 };
+                "prd"
+            }
         }
     }
 }
 impl ConfigProfile for Prof {}
 
-/// `format!("{}.yml", profile)` is the only formatting on the success path; the formatting
-/// machinery itself is beyond CBMC here, so the stub answers with the file name of the profile the
-/// harness announced in PROFILE_IN_USE (the link profile -> file name is thereby outside the claim).
-static mut PROFILE_IN_USE: u8 = 0;
+/// `format!("{}.yml", profile.as_ref())` is the only formatting on the success path; the formatting
+/// machinery itself is beyond CBMC here, so the stub answers with "<name>.yml" for the profile whose
+/// name the loader asked for last (its argument). What stays outside the claim is the literal
+/// ".yml" suffix / "{}" template of that one format string.
 fn fmt_stub(_a: std::fmt::Arguments<'_>) -> String {
-    if unsafe { PROFILE_IN_USE } == 0 { String::from("dev.yml") } else { String::from("prd.yml") }
+    if unsafe { LAST_PROFILE_ASKED } == 2 { String::from("prd.yml") } else { String::from("dev.yml") }
 }
 
 /// The process environment: PX_PROFILE is absent, "dev", "prd" or something else ("zz").
@@ -115,7 +123,7 @@ fn check_outcome(r: &Result<Cfg, crate::config::errors::ConfigLoadError>, vals: 
 }
 
 // @tier quick
-// @obligation with an explicit profile: for every presence/value pattern of 2 keys over the 3 sources, each key is taken from the environment if present there, else the profile file, else the base file; a key defined nowhere makes load() fail; the environment provider gets prefix PX_, separator __ and ignores PROFILE; the files named are <dir>/base.yml and <dir>/<profile>.yml
+// @obligation with an explicit profile (and PX_PROFILE absent, equal, different or invalid): the explicit profile selects the file; for every presence/value pattern of 2 keys over the 3 sources, each key is taken from the environment if present there, else the profile file, else the base file; a key defined nowhere makes load() fail; the environment provider gets prefix PX_, separator __ and ignores PROFILE; the files named are <dir>/base.yml and <dir>/<profile>.yml
 // @bounds 2 keys x 3 sources (presence and u8 value arbitrary); profiles {dev, prd}; relative configuration directory "conf"
 // @functions ConfigLoader::new, ConfigLoader::profile, ConfigLoader::configuration_dir, ConfigLoader::load
 // @timeout 1800
@@ -127,14 +135,17 @@ fn c18_precedence_explicit_profile() {
     let vals = any_values();
     unsafe { fv::VALUES = vals };
     let p = if nd::any_bool() { Prof::Dev } else { Prof::Prod };
-    unsafe { ENV_PROFILE = 0 };
-    vtrace(&vals, Some(p), 0);
-    unsafe { PROFILE_IN_USE = if p == Prof::Dev { 0 } else { 1 } };
+    // whatever PX_PROFILE says, an explicit profile wins ("rather than loading it from PX_PROFILE")
+    let e: u8 = nd::u8_below(4);
+    unsafe { ENV_PROFILE = e };
+    unsafe { LAST_PROFILE_ASKED = 0 };
+    vtrace(&vals, Some(p), e);
     unsafe { fv::EXPECT_PROFILE_FILE = if p == Prof::Dev { *b"/dev.yml" } else { *b"/prd.yml" } };
     let r: Result<Cfg, _> = ConfigLoader::<Prof>::new().profile(p).configuration_dir("conf").load();
     check_outcome(&r, &vals);
     kani::cover!(r.is_ok() && vals[2][0].is_some() && vals[1][0].is_some() && vals[0][0].is_some(), "all three sources define k0");
     kani::cover!(r.is_err(), "a key defined nowhere");
+    kani::cover!(r.is_ok() && p == Prof::Dev && e == 2, "explicit dev although PX_PROFILE=prd");
     std::mem::forget(r);
 }
 
@@ -152,8 +163,8 @@ fn c18_profile_from_environment() {
     unsafe { fv::VALUES = vals };
     let e: u8 = nd::u8_below(4);
     unsafe { ENV_PROFILE = e };
+    unsafe { LAST_PROFILE_ASKED = 0 };
     vtrace(&vals, None, e);
-    unsafe { PROFILE_IN_USE = if e == 2 { 1 } else { 0 } };
     unsafe { fv::EXPECT_PROFILE_FILE = if e == 2 { *b"/prd.yml" } else { *b"/dev.yml" } };
     let r: Result<Cfg, _> = ConfigLoader::<Prof>::new().load();
     if e == 0 || e == 3 {
@@ -176,6 +187,7 @@ mod native_search {
             fv::ENV_IGNORES_PROFILE = false;
             fv::PROFILE_FILE_OK = false;
             fv::BASE_FILE_OK = false;
+            LAST_PROFILE_ASKED = 0;
         }
     }
     #[test]
